@@ -4,6 +4,8 @@ import array, concurrent.futures as cf, glob, hashlib, json, os, re, shutil, sub
 VERIF = os.path.dirname(os.path.dirname(os.path.abspath(__file__)))
 REPO = os.environ.get('VERIF_REPO', '/repo')
 NPROC = int(os.environ.get('VERIF_JOBS', '16'))
+# VERIF_SCRATCH (sensitivity tool only): build output, evidence and new replay files go there instead of /verif
+OUTDIR = os.environ.get('VERIF_SCRATCH', VERIF)
 
 HAVE_ALL = ['ASINH', 'ACOSH', 'ATANH', 'EXPM1', 'LOG1P', 'ATAN2', 'HYPOT', 'CSQRT', 'CPOW', 'CEXP', 'CLOG',
             'CSIN', 'CCOS', 'CTAN', 'CSINH', 'CCOSH', 'CTANH', 'CASIN', 'CACOS', 'CATAN', 'CASINH', 'CACOSH', 'CATANH']
@@ -51,7 +53,7 @@ class BuildError(Exception):
 
 def build_units(pid, units, want_fuzz, want_enum, log):
     """compile everything from REPO's working tree; returns after all binaries exist"""
-    bdir = os.path.join(VERIF, 'build', pid)
+    bdir = os.path.join(OUTDIR, 'build', pid)
     shutil.rmtree(bdir, ignore_errors=True)
     os.makedirs(bdir)
     drv = os.path.join(VERIF, 'build', 'drv')
